@@ -32,11 +32,13 @@ type c02wCase struct {
 	FromLocal bool     `json:"from_local"` // data flows local -> remote (else remote -> local)
 	SrcShard  int32    `json:"src_shard"`
 	Workflows []string `json:"workflows"`
+	Knobs     int      `json:"knobs,omitempty"` // unrelated settings of the connection (vfUnrelated bit mask)
 }
 
 func c02wRun(c c02wCase) (viol string, harness error) {
 	w, err := vfNewTCPWorld(func(cfg *config.ClusterConnConfig) {
 		cfg.ShardCountConfig = config.ShardCountConfig{Mode: config.ShardCountRouting, LocalShardCount: c.L, RemoteShardCount: c.R}
+		vfUnrelated(cfg, c.Knobs&^vfKnobLCM11)
 	})
 	if err != nil {
 		return "", err
@@ -199,6 +201,9 @@ func TestVF_C02_Wiring(t *testing.T) {
 	}
 	rapid.Check(t, func(rt *rapid.T) {
 		c := c02wCase{L: rapid.Int32Range(1, 4).Draw(rt, "l"), R: rapid.Int32Range(1, 5).Draw(rt, "r"), FromLocal: rapid.Bool().Draw(rt, "fromLocal"), SrcShard: rapid.Int32Range(1, 4).Draw(rt, "src")}
+		if rapid.Bool().Draw(rt, "knobs") {
+			c.Knobs = rapid.IntRange(1, 63).Draw(rt, "knobMask")
+		}
 		n := rapid.IntRange(3, 8).Draw(rt, "n")
 		for i := 0; i < n; i++ {
 			c.Workflows = append(c.Workflows, fmt.Sprintf("wf-%d", rapid.IntRange(0, 500).Draw(rt, "wf")))
